@@ -5,7 +5,7 @@
 //	REQ pub <stack> <script> <closeErr> <msgs> <ops> @ inner=<hex> base=<ns> m<id>=<now>:<t0>:<t1> g<layer>.<id>=<now>:<t0>:<t1>
 //	OBS <res>/<inner calls>;…|inner=<topic>[<id>:<for>:<until>:<other>,…];…|gen=<id>,…|probe=<ok>/<err>/<empty>/<repub>|metrics=…|closes=<n>
 //	REQ sub <stack> <subscribe script: one bit per Subscribe call, 1 = refused> <close script: one bit per Close call> <n> <script a/n/u/A/N> <reads> @ inner=<hex>
-//	OBS sub=<res>|recv=<id>:<path>:<same object>:<inner settlement>,…|A=<metrics>|close=<res>/<inner closes>|chan=<closed>|B=<metrics>
+//	OBS sub=<res>|recv=<id>:<path>:<same object>:<inner settlement>,…|A=<metrics>|close=<res>/<inner closes>|chan=<closed>|drain=<like recv>|B=<metrics>
 //	REQ rt <kp> <ks> <km> <script> <outcomes> @ pub=<hex> sub=<hex>
 //	OBS settle=<a|n…>|pub=<res>:<n msgs>;…|inv=<n>|metrics=…|close=ok
 //	REQ rto <ks> <rounds> <outcomes> @ pub=<hex> sub=<hex>   (overlapping invocations of one handler, run in a child process)
@@ -300,10 +300,11 @@ func statSub(out *wh.Out, c subCase) {
 	out.Add("sub.settle.ack", strings.Count(c.script, "a"))
 	out.Add("sub.settle.nack", strings.Count(c.script, "n"))
 	out.Add("sub.settle.late", strings.Count(c.script, "u"))
+	out.Add("sub.handed_out_during_close", strings.Count(c.script, "d")+strings.Count(c.script, "e"))
 	out.Add("sub.settle.ack_after_context_cancelled", strings.Count(c.script, "A"))
 	out.Add("sub.settle.nack_after_context_cancelled", strings.Count(c.script, "N"))
 	out.Count("sub.close_calls_x" + wh.Itoa(len(c.closes)))
-	if c.reads < c.n {
+	if c.reads < c.n-strings.Count(c.script, "d")-strings.Count(c.script, "e") {
 		out.Count("sub.close_with_unread_messages")
 	}
 	for _, e := range c.subs {
@@ -331,6 +332,10 @@ func genSub(out *wh.Out, a wh.Args, rng *wh.Rng) {
 		// accepted, messages and acks flow, a further Subscribe is refused, then Close (also retried after a failure)
 		{n: 2, script: "nu", reads: 2, subs: []bool{false, true}, closes: []bool{true, false}},
 		{n: 1, script: "A", reads: 1, subs: []bool{true, true, false}, closes: []bool{false}},
+		// a wrapped subscriber with a graceful Close: it hands out what it had fetched WHILE its Close runs (one message at
+		// a time, each waiting to be settled); the consumer reads until the channel is closed
+		{n: 4, script: "ande", reads: 2, closes: []bool{false}},
+		{n: 3, script: "ddd", reads: 0, subs: []bool{true, false}, closes: []bool{true, false}},
 		// settled after the subscription context was cancelled (ack and nack), next to ones settled while subscribed
 		{n: 4, script: "aANn", reads: 4, closes: []bool{false}},
 		{n: 3, script: "NuA", reads: 3, closes: []bool{false}},
@@ -369,6 +374,12 @@ func genSub(out *wh.Out, a wh.Args, rng *wh.Rng) {
 		c.reads = c.n
 		if c.n > 0 && rng.Intn(5) == 0 {
 			c.reads = rng.Intn(c.n)
+		} else if rng.Intn(5) == 0 {
+			// everything so far is read; 1..3 more messages are handed out while the wrapped Close drains
+			for j, k := 0, 1+rng.Intn(3); j < k; j++ {
+				c.script += string("dde"[rng.Intn(3)])
+				c.n++
+			}
 		}
 		switch rng.Intn(12) {
 		case 0:
